@@ -3,7 +3,8 @@
 Proof: coq/props/Properties_C17.v — the invariances reproducibility needs, for the executable scheduler/injector model
        coq/model/Sched.v: equivariance under injective renaming of fiber ids, invariance under a shift of the virtual
        clock, checkpoint (the rest of a run after a quiescent point is a function of (random count, injector state)),
-       draws are consumed in order, sanity invariants.
+       draws are consumed in order, sanity invariants (clock monotone; no fiber in two queues; a sleeper is never
+       resumed before its deadline) -- proofs/SchedProofs.v (simulation) and proofs/SchedInvProofs.v (invariant).
 Tie:   the real library runs client programs with statically known action lists; the explorer decides NOTHING (the
        library's own seeded engine does); a recorder (resume hook + a choose hook that returns -1) yields the token
        sequence; Sched.run, fed with the raw outputs of std::mt19937_64(seed), must predict it token by token, with
@@ -167,6 +168,17 @@ HAND_PROGRAMS = [
     ("parked", "f0(q1 a)f1(a a) j1 j0"),
     # phases with checkpoints
     ("phases", "f0(a w a)f1(a s30 a) a w j0 j1 p f2(l0 a u0 w)f3(l0 w u0) y j2 j3 p f4(Q1,20)f5(s10 k1) j4 j5 p a w a"),
+]
+
+
+# scenarios with a fixed configuration
+FIXED_CASES = [
+    # a timed waiter notified just before its deadline while every other fiber sleeps: before 8621598 the empty bucket
+    # it left in Scheduler::_sleep_list made RunLoop call GetNext() on an empty run queue (SIGSEGV)
+    ("fixed/stalebucket-1", "f0(Q0,15) y K0 s200 j0", dict(seed=1, freq=1000, cas=0, pick=10, tick=10, slpt=1), "main"),
+    ("fixed/stalebucket-4", "f0(Q0,15) y K0 s200 j0", dict(seed=4, freq=1000, cas=0, pick=10, tick=10, slpt=1), "main"),
+    # two timed waiters with the same deadline, both notified early (the second one finds its bucket already erased)
+    ("fixed/samebucket", "f0(Q0,30) f1(Q0,30) y y K0 s200 j0 j1", dict(seed=3, freq=1000, cas=0, pick=10, tick=10, slpt=1), "main"),
 ]
 
 
@@ -400,6 +412,9 @@ def main(ck):
         for _ in range(3):
             cases.append(dict(name="hand/" + name, ops=parse_text(text), cfg=cfgs[ci], place=rng.choice(["driver", "main"])))
             ci += 1
+    for name, text, cf, place in FIXED_CASES:
+        cases.append(dict(name=name, ops=parse_text(text), cfg=cf, place=place))
+    n_special = len(cases)
     for i in range(n_rand):
         untimed = rng.random() < 0.15
         ops = gen_program(rng, rng.randint(1, 3), allow_untimed=untimed, detach=(not untimed and rng.random() < 0.2))
@@ -725,7 +740,7 @@ def main(ck):
                       "pair; distinct non-trivial = distinct canonical token sequences with >= 3 resumes of >= 2 fibers")
     ck.cov["samples"] = [dict(program=to_text(m["case"]["ops"]), config=m["case"]["cfg"], place=m["case"]["place"],
                               what=m["what"], trace=" ".join(m["tokens"][:60]))
-                         for m in metas[:2] + metas[len(HAND_PROGRAMS) * 3:len(HAND_PROGRAMS) * 3 + 2]]
+                         for m in metas[:2] + metas[n_special:n_special + 2]]
 
 
 def replay(ck, path):
